@@ -23,76 +23,81 @@ def _stub_calgary(cache_dir):
 
 
 def resolve(yaml_path, cache_dir, instantiate=True):
-    """Returns ("ok", summary) or ("error", stage, exception type, message)."""
+    """Runs the real direct.environment.setup_common_environment on the file (logging set-up switched off; with
+    instantiate=False the model classes are resolved but replaced by an empty module, so that all 87 files can be
+    taken through the set-up quickly), then builds masking functions and transform pipelines of every dataset section.
+    Returns ("ok", summary) or ("error", stage, exception type, message)."""
     shims.install()
     import torch
-    from omegaconf import OmegaConf
 
     import direct.environment as E
     from direct.common.subsample import build_masking_function
-    from direct.config.defaults import DefaultConfig, InferenceConfig, TrainingConfig, ValidationConfig
     from direct.data.mri_transforms import build_mri_transforms
     from direct.utils import dict_flatten, remove_keys
 
     _stub_calgary(cache_dir)
-    stage = "load"
-    try:
-        ext = OmegaConf.load(yaml_path)
-        stage = "models"
-        cfg = OmegaConf.structured(DefaultConfig)
-        models, models_config = E.load_models_into_environment_config(ext)
-        cfg.model = models_config.model
-        del models_config["model"]
-        cfg.additional_models = models_config
-        cfg.training = TrainingConfig
-        cfg.validation = ValidationConfig
-        cfg.inference = InferenceConfig
-        new = ext.copy()
-        ndatasets = 0
-        for key in ext:
-            stage = "merge:" + str(key)
-            if key in ["models", "additional_models"]:
-                continue
-            if key in ["training", "validation", "inference"]:
-                if not ext[key]:
-                    continue
-                if key in ["training", "validation"]:
-                    for idx, (dname, dcfg) in enumerate(E.extract_names(ext[key].datasets)):
-                        new[key].datasets[idx] = dcfg
-                        cfg[key].datasets.append(E.load_dataset_config(dname))
-                        ndatasets += 1
-                else:
-                    dname, dcfg = E.extract_names(ext[key].dataset)
-                    new[key].dataset = dcfg
-                    cfg[key].dataset = E.load_dataset_config(dname)
-                    ndatasets += 1
-            cfg[key] = OmegaConf.merge(cfg[key], new[key])
-        stage = "operators"
-        fwd, bwd = E.build_operators(cfg.physics)
-        summary = {"model": cfg.model.model_name, "datasets": ndatasets}
+    st = {"stage": "load"}
+    cap = {}
+    saved = {k: getattr(E, k) for k in ("setup_logging", "load_models_into_environment_config", "build_operators", "initialize_models_from_config", "setup_engine", "load_model_from_name")}
+
+    def staged(name, stage, after=None):
+        real = saved[name]
+
+        def f(*a, **k):
+            st["stage"] = stage
+            r = real(*a, **k)
+            if after:
+                st["stage"] = after
+            return r
+
+        return f
+
+    def load_model(name):
+        cls = saved["load_model_from_name"](name)  # resolution errors are observed
         if instantiate:
-            stage = "model"
-            with torch.no_grad():
-                model, additional = E.initialize_models_from_config(cfg, models, fwd, bwd, "cpu")
-            stage = "engine"
-            engine = E.setup_engine(cfg, "cpu", model, additional, forward_operator=fwd, backward_operator=bwd, mixed_precision=False)
-            summary["engine"] = type(engine).__name__
-        else:
-            # resolve the engine class without building the model (the engine constructor only stores its arguments)
-            stage = "engine"
-            try:
-                E.setup_engine(cfg, "cpu", torch.nn.Identity(), {}, forward_operator=fwd, backward_operator=bwd, mixed_precision=False)
-            except SystemExit:
-                raise
-            except Exception:
-                pass
-        stage = "transforms"
+            return cls
+
+        def cheap(*a, **k):
+            return torch.nn.Identity()
+
+        return cheap
+
+    def init_models(cfg, models, fwd, bwd, device):
+        st["stage"] = "model"
+        cap.update(cfg=cfg, fwd=fwd, bwd=bwd)
+        with torch.no_grad():
+            return saved["initialize_models_from_config"](cfg, models, fwd, bwd, device)
+
+    def engine(cfg, device, model, additional, **kw):
+        st["stage"] = "engine"
+        if instantiate:
+            return saved["setup_engine"](cfg, device, model, additional, **kw)
+        try:
+            return saved["setup_engine"](cfg, device, model, additional, **kw)
+        except SystemExit:
+            raise
+        except Exception:  # the engine constructor may look into the (replaced) model
+            return None
+
+    try:
+        E.setup_logging = lambda *a, **k: None
+        E.load_model_from_name = load_model
+        E.load_models_into_environment_config = staged("load_models_into_environment_config", "models", after="merge")
+        E.build_operators = staged("build_operators", "operators")
+        E.initialize_models_from_config = init_models
+        E.setup_engine = engine
+        run_dir = tempfile.mkdtemp(prefix="env_", dir=cache_dir)
+        env = E.setup_common_environment("run", pathlib.Path(run_dir), yaml_path, "cpu", 0, False)
+        cfg, fwd, bwd = cap["cfg"], cap["fwd"], cap["bwd"]
+        summary = {"model": cfg.model.model_name, "engine": type(env.engine).__name__}
+        st["stage"] = "transforms"
         dsets = []
         for key in ("training", "validation"):
-            if key in ext and ext[key]:
+            if cfg.get(key) is not None and cfg[key].get("datasets"):
                 dsets += list(cfg[key].datasets)
-        if "inference" in ext and ext["inference"]:
+        if cfg.get("inference") is not None and cfg.inference.get("dataset") is not None and cfg.inference.dataset.get("name"):
             dsets.append(cfg.inference.dataset)
+        summary["datasets"] = len(dsets)
         ntr = 0
         for ds in dsets:
             masking = ds.transforms.masking
@@ -102,6 +107,9 @@ def resolve(yaml_path, cache_dir, instantiate=True):
         summary["transforms"] = ntr
         return ("ok", summary)
     except SystemExit as e:
-        return ("error", stage, "SystemExit", "name resolution failed (sys.exit(%s))" % e.code)
+        return ("error", st["stage"], "SystemExit", "name resolution failed (sys.exit(%s))" % e.code)
     except Exception as e:  # noqa
-        return ("error", stage, type(e).__name__, str(e)[:300])
+        return ("error", st["stage"], type(e).__name__, str(e)[:300])
+    finally:
+        for k, v in saved.items():
+            setattr(E, k, v)
